@@ -22,5 +22,9 @@ def run(ctx):
                                                  "VERIF_SLICE": ctx.seed % 32, "VERIF_SLICES": 32})] if ctx.tier == "quick" else \
           [("promo-%s-%d" % (v, f), "Families_pos.cfg", {"VERIF_FAMILY": "promo", "VERIF_VARIANT": v, "VERIF_FILE": f, "VERIF_SLICE": 0, "VERIF_SLICES": 2})
            for v in "rbq" for f in range(8)]
+    fam = fam + ([("ep-slice", "Families_pos.cfg", {"VERIF_FAMILY": "ep", "VERIF_VARIANT": "rbq"[(ctx.seed + 1) % 3], "VERIF_FILE": (ctx.seed * 3 + 2) % 8,
+                                                    "VERIF_SLICE": (ctx.seed + 3) % 16, "VERIF_SLICES": 16})] if ctx.tier == "quick" else
+                 [("ep-%s-%d" % (v, f), "Families_pos.cfg", {"VERIF_FAMILY": "ep", "VERIF_VARIANT": v, "VERIF_FILE": f, "VERIF_SLICE": 0, "VERIF_SLICES": 2})
+                  for v in "rq" for f in range(8)])
     board_pipeline(ctx, bfs, walks, fam)
     sys_model_check(ctx, hot, 1 if ctx.tier == "quick" else 2)
